@@ -799,6 +799,8 @@ class EnvelopeSuite(Suite):
     # -- second Coq pass
     def coq_term(self, case):
         b = built(case)
+        if "hint" not in case:          # corpus / replay cases are stored without oracle answers
+            self.add_hints([case])
         sha, dec, ok = oracle_terms(case.get("hint"))
         f, k, a = file_term(b.file), bytes_term(b.key), bytes_term(b.aad)
         head = f"let file := {f} in let key := {k} in let aad := {a} in "
